@@ -11,6 +11,8 @@ PID = "C09"
 def jobs(tier):
     js = []
     for e in CAT09.build(8, tier):
+        if "c09out" in e.tags:
+            continue            # wire-returning twins: used by C02 / C04 / C05
         base = dict(entry=e.name, backend="snarkjs", tier=tier, pid=PID, catalogue="checks.cat_c09", weight=2)
         cfg = dict(n=8, r=2, guard=None, bound=None)
         js.append(dict(base, name="%s/value" % e.name, analysis="obs", cfg=dict(cfg)))
